@@ -5,8 +5,8 @@ ROOT = os.path.dirname(os.path.dirname(os.path.abspath(__file__)))
 
 ORACLE = "runtime monitoring: generated workload through a recording shim at the exported API, judged online by a reference-model oracle"
 CHECKS = {
- "C01": dict(tech=ORACLE + " (naive grammar recogniser); complete edit-distance-1 neighbourhoods + hostile mutation stream",
-   text="Every generated string is offered to the four real parsers and to an independent naive recogniser; any accept/reject disagreement, contract breach ((nil,nil)/(obj,err)) or panic is a violation. Exploration of an infinite language: complete edit-distance-1 neighbourhoods of anchor vectors, pairwise covering sets, 26 hostile mutation operators, soup and random bytes.",
+ "C01": dict(tech=ORACLE + " (naive grammar recogniser); complete edit-distance-1 neighbourhoods + hostile mutation stream; packed-corner and literal-guided objects",
+   text="Every generated string is offered to the four real parsers and to an independent naive recogniser; any accept/reject disagreement, contract breach ((nil,nil)/(obj,err)) or panic is a violation. Exploration of an infinite language: complete edit-distance-1 neighbourhoods of anchor vectors, pairwise covering sets, 28 hostile mutation operators (incl. length wraps at 256/65536), rune twins, decorated anchors, relabelled element blocks, all 65,536 header digit pairs, explicit-copy representations, packed-code corners and literal-guided objects, soup and random bytes.",
    note="trusts the transcription of the grammar in harness/spec/grammar.go; strings far from any valid vector are only sampled", ref="3 C01"),
  "C06": dict(tech=ORACLE + " (metric map read by the recogniser) on every Get after every accepted parse",
    text="For every accepted string of the stream, Get of every metric is compared with what the string says (explicit value or not-defined default); floor: every (metric,value) explicit and every optional metric omitted at least once.",
@@ -38,7 +38,7 @@ CHECKS = {
  "C11": dict(tech="runtime monitoring: arithmetic predicate monitor (finite, exact one-decimal, range, Rating accepts) on every scoring result of complete class sweeps",
    text="Every result of every rounded scoring method over the complete class sweeps of v3.0/v3.1/v4.0 (v2.0 complete in thorough) and random raw objects must be finite, equal float64(k)/10, in range and accepted by Rating.",
    note="pure predicate, no model", ref="3 C11"),
- "C16": dict(tech=ORACLE + " (nomenclature from the assignment); complete enumeration of all threat x environmental configurations by a Gray-code walk of Set calls",
+ "C16": dict(tech=ORACLE + " (nomenclature from the assignment); complete enumeration of all threat x environmental configurations by a Gray-code walk of Set calls, of all supplemental and of all base configurations; packed-corner and literal-guided objects",
    text="Nomenclature() compared with the group-membership oracle on ALL 1,179,648,000 configurations of the threat metric and the 14 environmental metrics (Gray-code walk, one Set per step on a real object), plus every optional metric as the sole defined one, all-but-one, all pairs, every assignment with at most 4/5 optional metrics defined, and random assignments built through hostile histories.",
    note="trusts Table 23 group membership in harness/spec/vocab.go", ref="3 C16"),
  "C10": dict(tech="runtime monitoring: metamorphic sibling-equality monitor (objects with equal effective values must score equal); complete per-metric override matrix",
@@ -47,16 +47,16 @@ CHECKS = {
  "C12": dict(tech="runtime monitoring: every grid object scored once on a real object, then complete single-step edge comparison along the specification's severity orders",
    text="All single-severity-step edges are compared on scores observed from real objects: v2.0 and v3.0 base x temporal, v3.1 base x temporal x requirements (3 scores), v4.0 all 15,116,544 effective classes (149.9M edges) -- complete in both tiers -- plus random raw steps on Modified / overridden metrics.",
    note="trusts the severity orders in harness/spec/vocab.go; oracle-independent otherwise", ref="3 C12"),
- "C15": dict(tech=ORACLE + " (interval function on the exact real value, math/big) over all thresholds +-ulps, all 101 scores, specials and random bit patterns",
+ "C15": dict(tech=ORACLE + " (interval function on the exact real value, math/big) over all thresholds +-ulps, all 101 scores, k-bit-mantissa (float32/half) neighbourhoods, specials and random bit patterns",
    text="The three Rating functions are compared with the statement's interval function at every one-decimal score, every threshold with 1-4 ulps on each side, signed zero, subnormals, infinities and millions of random float64 bit patterns; error identity and empty string checked.",
    note="NaN unspecified and skipped", ref="3 C15"),
- "C18": dict(tech="runtime monitoring: single-defect injector with planted ground truth; error identity monitor via errors.Is/errors.As",
+ "C18": dict(tech="runtime monitoring: single-defect injector with planted ground truth over shape-complete sources; error identity monitor via errors.Is/errors.As (+ abbreviation byte for byte); hostile Get/Set matrix on several receivers",
    text="Exactly one defect of a known kind is planted at every element position of covering and random well-formed vectors and the returned error must be the documented sentinel / typed error (with the right abbreviation); Get/Set over the complete hostile abbreviation x value matrix. Known finding F3 matched narrowly.",
    note="expected values exactly as listed in C18; defect kinds the statement does not fix are not generated", ref="3 C18"),
- "C14": dict(tech="Go race detector (+checkptr) on a plain and on a yield-point-instrumented build of the current tree, history-independence monitor (result == quiescent baseline), string-stability and copy-independence monitors; -asan build in thorough",
+ "C14": dict(tech="Go race detector (+checkptr) on a plain and on a yield-point-instrumented build of the current tree, history-independence monitor (result == quiescent / fresh-process baseline) over pair, sibling, aliased-input, call-count and elapsed-time histories, single- and two-method hammer phases, kept-result (strings, objects, errors) and poisoned-error monitors; -asan build in thorough",
    text="Three (thorough: four) builds of the current tree run (0) cold concurrent starts in fresh processes judged against the spec oracles, (1) sequential histories designed to expose stale pooled state, (2) a hostile concurrent workload (few inputs, many goroutines, GOMAXPROCS grid); every result is compared with a quiescent baseline (itself cross-checked in a fresh process), every Vector() string and every object handed out by ParseVector is kept and re-verified after later calls, score-Set-score histories are judged by the oracle, race reports are counted from the GORACE log. An AST pass inserts seeded Gosched/sleep yield points into a scratch copy of go-cvss to widen interleavings.",
    note="race detector sees only executed access pairs; interleavings are explored, not enumerated; baselines after double GC stand for 'no history'", ref="3 C14"),
- "C17": dict(tech="runtime allocation counters (runtime.MemStats.Mallocs deltas) around concrete API calls in steady state, GOMAXPROCS(1), GC off",
+ "C17": dict(tech="runtime allocation counters (runtime.MemStats.Mallocs deltas) around concrete API calls in steady state (GOMAXPROCS(1), GC off), block-counted over exhaustive Gray-code walks, and process-wide under 16 concurrent callers",
    text="Mean heap allocations per call are measured for ParseVector, Vector, every Get/Set arm (legal and illegal values), every scoring method, Rating and Nomenclature over inputs that make lenVec and the parsers branch (every optional metric alone x value, every pair, all, none, explicit X/ND, shuffled v3, random subsets), both in a steady state of the same call and for a call that directly follows a different call (valid and single-defect vectors of every error kind; MemStats read in between); minimum over repetitions so a loaded machine cannot cause a false alarm.",
    note="a property of the compiled program: decided for go1.23.5 in this image, plain build", ref="3 C17"),
 }
